@@ -285,19 +285,45 @@ Definition FS := fs content.
 Definition goto_read (t : thread) (ents : list bytes) (cnt : list (bytes * cfile)) : thread :=
   set_read t (match ents with [] => FReadUpload | _ => FReadCount end) ents cnt.
 
-(* the call the thread is parked before *)
-Definition step_call (f : FS) (log : list ack) (o : outcome) (t : thread) : FS * list ack * thread :=
+(* ---- effects: what one call does to the file system / the server ---- *)
+Inductive effect :=
+  | ENone
+  | ERemLocal (n : bytes)                  (* os.Remove in local/ *)
+  | ECreateLocal (n : bytes)               (* O_CREATE|O_EXCL succeeded: an empty file *)
+  | EWriteId (fd : nat) (c : content)      (* f.Write through the handle *)
+  | EMkdir                                 (* os.MkdirAll(upload) *)
+  | ECreateLock (n : bytes)                (* O_CREATE|O_EXCL of the lock file succeeded *)
+  | EPutUp (n : bytes) (c : content)       (* os.WriteFile in upload/ *)
+  | ERemUp (n : bytes)                     (* os.Remove in upload/ *)
+  | EPost (a : ack).                       (* http.Post reached the server *)
+
+Definition apply_eff (e : effect) (f : FS) (log : list ack) : FS * list ack :=
+  match e with
+  | ENone => (f, log)
+  | ERemLocal n => (set_local f (d_remove (f_local f) n), log)
+  | ECreateLocal n => (bump (set_local f (d_add (f_local f) n (f_next f) (CRep None))), log)
+  | EWriteId fd c => (set_local f (d_set_id (f_local f) fd c), log)
+  | EMkdir => (mkFS (f_local f) (Some (up_dir f)) (f_next f), log)
+  | ECreateLock n => (bump (set_upload f (d_add (up_dir f) n (f_next f) CLock)), log)
+  | EPutUp n c => (bump (set_upload f (d_put (up_dir f) n (f_next f) c)), log)
+  | ERemUp n => (set_upload f (d_remove (up_dir f) n), log)
+  | EPost a => (f, log ++ [a])
+  end.
+
+(* the call the thread is parked before: its effect (decided on what the
+   call observes) and the thread's continuation *)
+Definition decide (f : FS) (o : outcome) (t : thread) : effect * thread :=
   let c := t_cfg t in
   let w := t_week t in
   match t_pc t with
   | FReadLocal =>
       let names := d_names (f_local f) in
       let ents := filter is_count names in
-      (f, log, set_listing t (match ents with [] => FReadUpload | _ => FReadCount end)
-                           ents (filter (collect_ready c) names))
+      (ENone, set_listing t (match ents with [] => FReadUpload | _ => FReadCount end)
+                          ents (filter (collect_ready c) names))
   | FReadCount =>
       match t_ents t with
-      | [] => (f, log, set_pc t FReadUpload)
+      | [] => (ENone, set_pc t FReadUpload)
       | n :: rest =>
           let cnt :=
             match d_get (f_local f) n with
@@ -309,77 +335,76 @@ Definition step_call (f : FS) (log : list ack) (o : outcome) (t : thread) : FS *
                 end
             | None => t_count t
             end in
-          (f, log, goto_read t rest cnt)
+          (ENone, goto_read t rest cnt)
       end
   | FReadUpload =>
       match f_upload f with
-      | None => (f, log, set_pc t FMkdir)
-      | Some d => (f, log, enter_reports t (Some (filter is_json (d_names d))))
+      | None => (ENone, set_pc t FMkdir)
+      | Some d => (ENone, enter_reports t (Some (filter is_json (d_names d))))
       end
-  | FMkdir => (mkFS (f_local f) (Some (up_dir f)) (f_next f), log, enter_reports t None)
-  | RPick => (f, log, t)
+  | FMkdir => (EMkdir, enter_reports t None)
+  | RPick => (ENone, t)
   | RDel =>
       match t_dels t with
-      | [] => (f, log, set_pc t RPick)
-      | n :: rest =>
-          (set_local f (d_remove (f_local f) n), log,
-           set_dels t (match rest with [] => RPick | _ => RDel end) rest)
+      | [] => (ENone, set_pc t RPick)
+      | n :: rest => (ERemLocal n, set_dels t (match rest with [] => RPick | _ => RDel end) rest)
       end
   | RStatLocal =>
-      if d_mem (f_local f) (local_name w) then (f, log, start_del t w (t_files t) (t_ready t))
-      else (f, log, set_pc t RStatUp)
+      if d_mem (f_local f) (local_name w) then (ENone, start_del t w (t_files t) (t_ready t))
+      else (ENone, set_pc t RStatUp)
   | RStatUp =>
-      if d_mem (f_local f) (ready_name w) then (f, log, start_del t w (t_files t) (t_ready t))
-      else (f, log, set_pc t (if t_upok t then RCreateUp else RCreateLocal))
+      if d_mem (f_local f) (ready_name w) then (ENone, start_del t w (t_files t) (t_ready t))
+      else (ENone, set_pc t (if t_upok t then RCreateUp else RCreateLocal))
   | RCreateUp =>
-      if d_mem (f_local f) (ready_name w) then (f, log, set_pc t RCreateLocal)
-      else (bump (set_local f (d_add (f_local f) (ready_name w) (f_next f) (CRep None))), log,
-            set_fd t RWriteUp (f_next f))
-  | RWriteUp =>
-      (set_local f (d_set_id (f_local f) (t_fd t) (upload_body t)), log, set_pc t RCreateLocal)
+      if d_mem (f_local f) (ready_name w) then (ENone, set_pc t RCreateLocal)
+      else (ECreateLocal (ready_name w), set_fd t RWriteUp (f_next f))
+  | RWriteUp => (EWriteId (t_fd t) (upload_body t), set_pc t RCreateLocal)
   | RCreateLocal =>
-      if d_mem (f_local f) (local_name w) then (f, log, finish_week t)
-      else (bump (set_local f (d_add (f_local f) (local_name w) (f_next f) (CRep None))), log,
-            set_fd t RWriteLocal (f_next f))
-  | RWriteLocal =>
-      (set_local f (d_set_id (f_local f) (t_fd t) (local_body t)), log, finish_week t)
+      if d_mem (f_local f) (local_name w) then (ENone, finish_week t)
+      else (ECreateLocal (local_name w), set_fd t RWriteLocal (f_next f))
+  | RWriteLocal => (EWriteId (t_fd t) (local_body t), finish_week t)
   | URead =>
       match d_get (f_local f) (t_file t) with
-      | None => (f, log, advance t)
+      | None => (ENone, advance t)
       | Some ct =>
           match fdate (t_file t) with
-          | None => (f, log, set_pc t Done)             (* slice bounds panic *)
-          | Some d => (f, log, set_buf t ULock d ct)
+          | None => (ENone, set_pc t Done)             (* slice bounds panic *)
+          | Some d => (ENone, set_buf t ULock d ct)
           end
       end
   | ULock =>
       match f_upload f with
-      | None => (f, log, advance t)
+      | None => (ENone, advance t)
       | Some d =>
-          if d_mem d (lock_name w) then (f, log, advance t)
-          else (bump (set_upload f (d_add d (lock_name w) (f_next f) CLock)), log, set_pc t UStat)
+          if d_mem d (lock_name w) then (ENone, advance t)
+          else (ECreateLock (lock_name w), set_pc t UStat)
       end
   | UStat =>
-      if d_mem (up_dir f) (marker_name w) then (f, log, set_pc t URemAlready)
-      else (f, log, set_pc t UPost)
-  | URemAlready => (set_local f (d_remove (f_local f) (t_file t)), log, set_pc t UUnlock)
+      if d_mem (up_dir f) (marker_name w) then (ENone, set_pc t URemAlready)
+      else (ENone, set_pc t UPost)
+  | URemAlready => (ERemLocal (t_file t), set_pc t UUnlock)
   | UPost =>
-      (f, log ++ [mkAck w (t_buf t) o (t_id t)],
+      (EPost (mkAck w (t_buf t) o (t_id t)),
        set_pc t (match o with O200 => UWriteMarker | O4xx => URem4xx | _ => UUnlock end))
-  | URem4xx => (set_local f (d_remove (f_local f) (t_file t)), log, set_pc t UUnlock)
+  | URem4xx => (ERemLocal (t_file t), set_pc t UUnlock)
   | UWriteMarker =>
       match f_upload f with
-      | Some d => (bump (set_upload f (d_put d (marker_name w) (f_next f) (t_buf t))), log, set_pc t URemDone)
-      | None => (f, log, set_pc t UUnlock)
+      | Some _ => (EPutUp (marker_name w) (t_buf t), set_pc t URemDone)
+      | None => (ENone, set_pc t UUnlock)
       end
-  | URemDone => (set_local f (d_remove (f_local f) (t_file t)), log, set_pc t UUnlock)
+  | URemDone => (ERemLocal (t_file t), set_pc t UUnlock)
   | UUnlock =>
       match f_upload f with
-      | Some d => (set_upload f (d_remove d (lock_name w)), log, advance t)
-      | None => (f, log, advance t)
+      | Some _ => (ERemUp (lock_name w), advance t)
+      | None => (ENone, advance t)
       end
-  | Done => (f, log, t)
+  | Done => (ENone, t)
   end.
+
+Definition step_call (f : FS) (log : list ack) (o : outcome) (t : thread) : FS * list ack * thread :=
+  let '(e, t') := decide f o t in
+  let '(f', log') := apply_eff e f log in
+  (f', log', t').
 
 (* the range loop over the map of weeks *)
 Definition step_pick (w : bytes) (t : thread) : thread :=
